@@ -109,8 +109,10 @@ resume_load_progress(Download download, const Object& object) {
 
     // If the file is the wrong size, queue resize and clear resume
     // data for that file.
-    if (static_cast<uint64_t>(fs.size()) != (*listItr)->size_bytes()) {
-      if (fs.size() == 0) {
+    //
+    // A missing file leaves the stat buffer untouched, do not trust it.
+    if (!fileExists || static_cast<uint64_t>(fs.size()) != (*listItr)->size_bytes()) {
+      if (!fileExists || fs.size() == 0) {
         LT_LOG_LOAD_FILE("zero-length file found, file:resize range:clear|recheck", 0);
       } else {
         LT_LOG_LOAD_FILE("file has the wrong size, file:resize range:clear|recheck", 0);
